@@ -36,7 +36,7 @@ ASSUMPTIONS = [
     "a new process has fresh, unlocked module-level locks (re-created in the forked child)",
 ]
 MINIMUM = {"C17.crash_points_judged": 100, "C17.sibling_scenarios_judged": 8, "C17.session_histories_judged": 10}
-BUDGET_S = {"quick": 600, "thorough": 900}
+BUDGET_S = {"quick": 1200, "thorough": 900}
 SHARDS = {"quick": 16, "thorough": 900}
 EXHAUSTIVE = {"quick": True, "thorough": True}
 
